@@ -107,6 +107,21 @@ def has_literal_under_connective(p, under=False):
     return False
 
 
+_NAN = float("nan")
+NAN_ROWS = [{A: _NAN, B: 1, C: True}, {A: 0, B: _NAN, C: False}, {A: _NAN, B: _NAN, C: True}]
+
+
+def has_container(p):
+    k = p[0]
+    if k in ("inrange", "inseq"):
+        return True
+    if k in ("and", "or"):
+        return any(has_container(q) for q in p[1])
+    if k == "not":
+        return has_container(p[1])
+    return False
+
+
 _FIXTURE = None
 
 
@@ -160,6 +175,12 @@ def check_pred(p, raw, rows, stats):
         stats.c[f"as_trivial:{t}"] += 1
         if any(v is not t for v in truth):
             raise Violation("as_trivial-unsound", f"as_trivial()={t} but predicate is not constant: {ctx}")
+        if not has_container(p):
+            # rows are not restricted to integers: a not-a-number value compares unequal to itself
+            for r in NAN_ROWS:
+                if eval_p(p, r) is not t:
+                    raise Violation("as_trivial-unsound", f"as_trivial()={t} but the predicate evaluates to {eval_p(p, r)} on row {_row(r)}: {ctx}")
+            stats.c["as_trivial:checked-on-nan-rows"] += 1
     elif t is not None:
         raise Violation("as_trivial-type", f"as_trivial() returned {t!r}: {ctx}")
     else:
@@ -168,7 +189,7 @@ def check_pred(p, raw, rows, stats):
     fl = flatten_logical_and(lp)
     if fl is False:
         stats.c["flatten:False"] += 1
-        if any(truth):
+        if any(truth) or (not has_container(p) and any(eval_p(p, r) for r in NAN_ROWS)):
             raise Violation("flatten-false-unsound", f"flatten_logical_and is False but predicate holds on some row: {ctx}")
     else:
         stats.c[f"flatten:{min(len(fl), 4)}"] += 1
